@@ -358,6 +358,22 @@ impl Evaluatable for Value {
         match self {
             Self::Identifier(id) => ctx.lookup(id).and_then(|x| x.value_of(ctx)),
             Self::OpCall(f) => f.call(ctx),
+            // the members of an array or tuple literal are evaluated where the literal is written,
+            // the same way type_of looks at them (real_type_of for arrays, type_of for tuples)
+            Self::Array(a) => {
+                let mut ret = Vec::with_capacity(a.len());
+                for x in a.iter() {
+                    ret.push(x.real_value_of(ctx.clone())?)
+                }
+                Ok(Self::Array(Arc::new(ret)))
+            }
+            Self::Tuple(t) => {
+                let mut ret = Vec::with_capacity(t.len());
+                for x in t.iter() {
+                    ret.push(x.value_of(ctx.clone())?)
+                }
+                Ok(Self::Tuple(Arc::new(ret)))
+            }
             // Self::NativeObject(f) => {
             //     let e = f.as_evaluatable();
             //     if let Some(e) = e {
